@@ -29,6 +29,7 @@ PROPS = {
 
 PROPS["C11"] = dict(
     verus_units=["valid"],
+    kani=["validation_leaf"],
     technique="Verus contracts on all of validation/src/header/mod.rs against a consensus-rule spec (accept_spec)",
     level_text="unbounded deductive proof (all header chains, networks, candidates, times) that validate_header accepts iff the consensus rules "
                "listed in the statement hold and otherwise reports the first failing rule; loops (median-time-past walk, min-difficulty walk-back) by invariant",
@@ -287,4 +288,66 @@ PROPS["C18"] = dict(
         "candid::Nat comparison with 200u8, String::from_utf8 / into_bytes (assumed specs)",
     ],
     assumptions=COMMON_ASSUMPTIONS + ["the extractor closure is total"],
+)
+
+PROPS["C15"] = dict(
+    verus_units=["core"],
+    technique="Verus contracts on fee_rate_per_vbyte, the nearest-rank index arithmetic of percentiles (closure bodies as slices) and the tip-keyed result cache",
+    level_text="unbounded deductive proof that the fee rate is floor(1000 x fee / vsize) millisatoshi per vbyte (None for vsize 0); that for every p in 0..=100 and every "
+               "n up to 2^25 the value picked is the one at the nearest-rank index max(0, ceil(p n/100) - 1), which is 0 for p = 0, n-1 for p = 100 and monotone in p "
+               "(so 101 non-decreasing values of a sorted vector); and that the cached answer is returned while the tip of the served chain is unchanged, kept when no "
+               "fee-paying transaction exists, and otherwise recomputed and stored under the new tip",
+    level_note="PARTIAL: which fee rates are collected (get_fees_per_byte: most recent 10,000 non-coinbase transactions of the served chain, cached per block at "
+               "insertion or recomputed through a Cow/filter_map fallback) and the sort/map/collect of percentiles are assumed as uninterpreted functions; "
+               "equality of cached and recomputed rates after an upgrade is not decided",
+    explanation="the closure bodies of `percentiles` are lifted as R8 slices (ceil_div, the per-percentile pick, the constant 100).",
+    unverified_links=[
+        "fee_percentiles.rs::get_fees_per_byte and get_tx_fee_per_byte; outpoints_cache.rs insert_outpoints computing per-block fee rates",
+        "percentiles(): sort_unstable + (0..=100).map(closure).collect() glue around the verified slices; empty input => empty output (by inspection)",
+    ],
+    assumptions=COMMON_ASSUMPTIONS + ["fee < 2^64/1000 satoshi; at most 2^25 fee rates"],
+)
+
+PROPS["C01"] = dict(
+    verus_units=["core"],
+    kani=["canister_leaf"],
+    replays=[_rp("f1_prefix_address_does_not_leak", "F1", "quick"), _rp("f8_unfiltered_get_utxos_serves_the_heaviest_tip", "F8")],
+    engine="kani-inject",
+    technique="Kani harnesses on the real stable-index key codec / range / order + Verus contracts on chain lookup and the prefix walk + concrete replay of the prefix-address leak",
+    level_text="PARTIAL. Decided: (Kani, on the real encoders) key round trip; the key range of address A contains every key of A and, besides, only keys of addresses "
+               "whose text has A as a proper prefix (cover: it happens), so the equality filter on the decoded address added by fix 1e27d173 is load-bearing and exact; "
+               "byte order of an address's keys is (height descending, outpoint); an offset cuts the range exactly at the offset key; Utxo order is "
+               "(height descending, outpoint, value). (Verus) the walked chain is the served branch / the branch to the named tip; exactly the blocks up to the named "
+               "tip are applied, in order, and the tip height is stable height + index. The F1 replay re-runs the prefix-address scenario on the real endpoints",
+    level_note="NOT decided: that the stable maps plus per-block deltas equal the ledger replay (remove_inputs / insert_outputs / insert_utxo / insert_outpoints / "
+               "OutPointsCache / get_address_outpoints / AddressUtxoSet::into_iter are closure pipelines over StableBTreeMaps and entry-API maps: neither tool reads them), "
+               "one-height-per-outpoint in the outpoints cache for a transaction confirmed on two forks; address texts bounded to <= 3 ASCII bytes in the Kani harnesses "
+               "(labelled bounded, not counted as discharged)",
+    explanation="the codec facts are what make the address filter both necessary and sufficient; the pipeline applying it is covered by the concrete replay only.",
+    unverified_links=[
+        "utxo_set.rs remove_inputs / insert_outputs / insert_utxo (stable ingestion), utxos.rs small/medium/large split",
+        "outpoints_cache.rs insert_outpoints / remove (unstable deltas), address_utxoset.rs apply_block / into_iter, multi_iter.rs merge",
+        "utxo_set.rs::get_address_outpoints pipeline (range scan + the equality filter + in-progress block merge)",
+    ],
+    assumptions=COMMON_ASSUMPTIONS + ["heights < 2^31 in the key-range harnesses", "StableBTreeMap::range returns exactly the keys within the bounds in Blob order"],
+)
+
+PROPS["C06"] = dict(
+    verus_units=["core"],
+    kani=["canister_leaf"],
+    engine="kani-inject",
+    technique="Kani full-domain proof of the page codec on 72-byte inputs + Verus slice for every other length + Verus contract on the tip lookup + Kani order/offset harnesses",
+    level_text="decided per call: every byte string given as page is refused with an error unless it has 72 bytes (Verus, any length) and every 72-byte string decodes "
+               "without trap to (tip hash, height, outpoint) with to_bytes its inverse (Kani, all 2^576 inputs); the tip named by a page is looked up in the unstable tree "
+               "and the walked chain is exactly the branch from the anchor to it, None (=> UnknownTipBlockHash) iff it is not in the tree (Verus, all trees); resuming "
+               "from an offset cuts the stable key range exactly at the offset key and the unstable source by Utxo order (Kani, bounded address text)",
+    level_note="NOT decided: the page cut itself (take(limit+1) / split_off / next_page built from the first omitted element) is a closure pipeline; the interleaving "
+               "quantifier (blocks arriving, stabilisation, upgrades between pages) rests on C01's unverified ledger refinement",
+    explanation="see coverage.bounded for the harnesses with bounded address text.",
+    unverified_links=[
+        "get_utxos.rs:243-273 (take / map / collect / split_off / next_page closure)",
+        "get_utxos_internal's page branch glue (map_err / ok_or): by inspection",
+        "interleavings of page requests with ingestion, stabilisation and upgrades",
+    ],
+    assumptions=COMMON_ASSUMPTIONS,
 )
